@@ -82,16 +82,40 @@ class GChunks:
 
 
 class GReg:
-    """ghost registry: key in reg <=> Reg(key); reg[key] = the handler registered for key"""
+    """ghost registry: key in reg <=> Reg(key); reg[key] = the handler registered for key (KeyError when not registered);
+    its SIZE is a symbolic integer >= 0 (an empty registry, a registry of one entry, ... are all instances): len() and
+    truthiness answer with it, and a registered key implies size >= 1"""
     __pyvc_symbolic__ = True
+
+    def __init__(self, size=None):
+        self.size = size
+
+    def _sz(self, eng):
+        if self.size is None:
+            raise Unsupported('size of the registry')
+        return self.size
 
     def __pyvc_contains__(self, eng, key):
         if not isinstance(key, GId):
             raise Unsupported('registry key')
+        if self.size is not None:
+            eng.assume(z3.Implies(Reg(key.seq), self.size >= 1))
         return Sym(Reg(key.seq))
 
     def __pyvc_getitem__(self, eng, key):
+        if not isinstance(key, GId):
+            raise Unsupported('registry key')
+        if self.size is not None:
+            eng.assume(z3.Implies(Reg(key.seq), self.size >= 1))
+        if not eng.fork(Reg(key.seq)):
+            raise RaiseEx(KeyError('<unregistered id>'))
         return GHandler(key.seq)
+
+    def __pyvc_len__(self, eng):
+        return Sym(self._sz(eng))
+
+    def __pyvc_truth__(self, eng):
+        return Sym(self._sz(eng) > 0)
 
 
 class GHandler:
@@ -150,7 +174,7 @@ def h_from_errors(n_errors):
             errors_last = errors[-1] if errors else None
         cls = Obj.__new__(Obj)
         # from_errors is a classmethod reading cls.__handlers__: run it on a ghost class namespace
-        ghost_cls = _GhostCls(N.RpcError)
+        ghost_cls = _GhostCls(N.RpcError, e.int('registry_size', lo=0).e)
         try:
             r = e.call(e.unwrap(N.RpcError.__dict__['from_errors'].__func__), [ghost_cls, errors])
         except RaiseEx as ex:
@@ -209,12 +233,12 @@ class _GhostCls:
     """stands for the class object in the classmethod: __handlers__ is the ghost registry, calling it builds RpcError"""
     __pyvc_symbolic__ = True
 
-    def __init__(self, real):
-        self.real = real
+    def __init__(self, real, reg_size=None):
+        self.real, self.reg = real, GReg(reg_size)
 
     def __pyvc_attr__(self, eng, name):
         if name == '__handlers__':
-            return GReg()
+            return self.reg
         return getattr(self.real, name)
 
 
@@ -266,7 +290,7 @@ def run_P(ck):
     ck.function(N._gen_error_variants)
     ck.function(N.RpcError.from_errors)
     ck.assume("str.split('.') and '.'.join are inverse on identifiers seen as chunk sequences (no chunk contains '.', none is empty)")
-    ck.assume('the registry RpcError.__handlers__ is an arbitrary map (uninterpreted predicate + handler function)')
+    ck.assume('the registry RpcError.__handlers__ is an arbitrary map (uninterpreted predicate + handler function) of arbitrary size >= 0 (empty included)')
     ck.trust('PyVC encoding of the Python subset (DESIGN.md 3.2)')
     ck.trust('z3 5.1 sequence theory')
     from vlib.pyvc.crosscheck import crosscheck
